@@ -108,6 +108,11 @@ impl Scenario for ReshardScenario {
             let o = r.below(shards);
             let kind = r.pick(&["err", "long"]);
             json!({"helper": r.below(3), "shard": o, "kind": kind, "pos": r.below(lens[o] + 1)})
+        } else if shards > 1 && picker != "prss" && r.chance(1, 5) {
+            // transport fault: one chunk of one shard-to-shard channel arrives cut short by 1..7 bytes (records are 8 bytes)
+            let o = r.below(shards);
+            let d = (o + 1 + r.below(shards - 1)) % shards;
+            json!({"helper": r.below(3), "shard": d, "origin": o, "kind": "transport", "pos": 0, "cut": r.range(1, 7)})
         } else {
             Value::Null
         };
@@ -150,7 +155,8 @@ macro_rules! make_exec {
     let pend_mask = pu64(p, "pend_mask");
     if lens.len() != shards || picks.len() != shards || (0..shards).any(|o| picks[o].len() < lens[o] || picks[o].iter().any(|d| *d >= shards))
         || !["iter", "try_stream", "aad"].contains(&api.as_str())
-        || (!fault.is_null() && (api == "iter" || pu(&fault, "shard") >= shards || pu(&fault, "helper") > 2 || pu(&fault, "pos") > lens[pu(&fault, "shard")]))
+        || (!fault.is_null() && ps(&fault, "kind") != "transport" && (api == "iter" || pu(&fault, "shard") >= shards || pu(&fault, "helper") > 2 || pu(&fault, "pos") > lens[pu(&fault, "shard")]))
+        || (!fault.is_null() && ps(&fault, "kind") == "transport" && (pu(&fault, "shard") >= shards || pu(&fault, "origin") >= shards || pu(&fault, "origin") == pu(&fault, "shard") || pu(&fault, "helper") > 2 || pu(&fault, "cut") == 0 || pu(&fault, "cut") > 7))
     {
         return RunRes::invalid("reshard: plan");
     }
@@ -164,13 +170,23 @@ macro_rules! make_exec {
     let shape = format!("reshard s{shards} {picker} {api} n{total} f{} h{hint_extra}", if fault.is_null() { "-".into() } else { ps(&fault, "kind").to_string() });
     let log: NodeLog<NodeRes> = node_log();
     let log2 = StdArc::clone(&log);
+    let transport_site = if !fault.is_null() && ps(&fault, "kind") == "transport" {
+        Some(crate::verif::faults::Site {
+            chan: crate::verif::faults::ChanKey { kind: "shard", src: pu(&fault, "origin"), dst: pu(&fault, "shard"), shard: pu(&fault, "helper"), gate: "*".into() },
+            chunk: 0, offset: 0, pattern: format!("trunc:{}", pu(&fault, "cut")), stream_off: None,
+        })
+    } else {
+        None
+    };
+    let (tamper, interceptor) = crate::verif::faults::tamper(transport_site);
     let (lens2, picks2, fault2, api2, picker2) = (lens.clone(), picks.clone(), fault.clone(), api.clone(), picker.clone());
 
     let outcome = sim_async(&spec, StdArc::new(AtomicBool::new(false)), move || {
         let log = StdArc::clone(&log2);
         let (lens, picks, fault, api, picker) = (lens2.clone(), StdArc::new(picks2.clone()), fault2.clone(), api2.clone(), picker2.clone());
+        let interceptor = interceptor.clone();
         async move {
-            let world = TestWorld::<crate::test_fixture::WithShards<$n>>::with_shards(&world_config(world_seed, active, read_size, None));
+            let world = TestWorld::<crate::test_fixture::WithShards<$n>>::with_shards(&world_config(world_seed, active, read_size, Some(interceptor)));
             let (lens, picks, fault, api, picker, log) = (&lens, &picks, &fault, &api, &picker, &log);
             world
                 .semi_honest(Vec::<()>::new().into_iter(), |ctx, _| async move {
@@ -188,7 +204,7 @@ macro_rules! make_exec {
                     };
                     let mut items: VecDeque<Result<K, Error>> = (0..n).map(|i| Ok(rec(me, i))).collect();
                     let mut hint = n + hint_extra;
-                    if !fault.is_null() && pu(fault, "helper") == h && pu(fault, "shard") == me {
+                    if !fault.is_null() && ps(fault, "kind") != "transport" && pu(fault, "helper") == h && pu(fault, "shard") == me {
                         let pos = pu(fault, "pos");
                         if ps(fault, "kind") == "err" {
                             items.insert(pos, Err(Error::Internal));
@@ -236,7 +252,10 @@ macro_rules! make_exec {
         }
         v
     };
-    let faulty = if fault.is_null() { None } else { Some((pu(&fault, "helper"), pu(&fault, "shard"))) };
+    let transport_fired = !tamper.log.lock().unwrap().fired.is_empty();
+    let is_transport = !fault.is_null() && ps(&fault, "kind") == "transport";
+    // a transport fault that never met a chunk (no record travelled on that channel) is no fault at all
+    let faulty = if fault.is_null() || (is_transport && !transport_fired) { None } else { Some((pu(&fault, "helper"), pu(&fault, "shard"))) };
     for h in 0..3 {
         let helper_faulty = faulty.is_some_and(|f| f.0 == h);
         for d in 0..shards {
@@ -296,7 +315,9 @@ macro_rules! make_exec {
     let mut res = RunRes::pass(shape, outcome.decisions > 0 && total > 0, Some(outcome));
     res.probe("empty_input_shards", lens.iter().filter(|n| **n == 0).count() as u64);
     res.probe("input_faults", u64::from(faulty.is_some()));
-    if faulty.is_some() {
+    if is_transport {
+        res.fault("F3_transport_chunk_cut_short", u64::from(transport_fired));
+    } else if faulty.is_some() {
         res.fault("F6_input_stream_error", 1);
     }
     res
